@@ -356,7 +356,7 @@ theorem angle_readers_documented :
       "    else:",
       "      v6, v7 = v2.split('=')",
       "      v5[v6.strip()] = Mdoc._format_value(v7)",
-      "  v4 = pd.concat([v4, pd.DataFrame(v5, index=[0])], ignore_index=True)",
+      "  v4 = pd.concat([v4, pd.DataFrame(v5, index=[0], dtype=object)], ignore_index=True)",
       "v4['Removed'] = False",
       "v8 = v4.astype({section_id: int})",
       "v4[section_id] = v8[section_id]",
